@@ -21,10 +21,12 @@ pub enum Number {
 impl Number {
     pub fn negate(&self) -> Option<Self> {
         use Number::*;
+        // negate the value, not the text: gluing a second `-` in front of an already negative
+        // constant produced `--5`, and `-0` must stay the integer 0.
         Some(match self {
-            Integer(x) => Integer("-".to_owned() + x),
-            BigInt(x) => BigInt("-".to_owned() + x),
-            Float(x) => Float("-".to_owned() + x),
+            Integer(x) => Integer(x.parse::<i128>().ok()?.checked_neg()?.to_string()),
+            BigInt(x) => BigInt(x.parse::<i128>().ok()?.checked_neg()?.to_string()),
+            Float(x) => Float((-x.parse::<f64>().ok()?).to_string()),
             Byte(_) => return None,
         })
     }
